@@ -584,6 +584,46 @@ func ruleU1(w *world.World, r *report.RuleResult) {
 	if m == 0 {
 		r.Fail(fname+"|update", w.Pos(fn.Pos()), "AuthenticateConnection never records a successful authentication in the connection table")
 	}
+	// every success (update of the connection table) lies on the edge where the user is enabled
+	const ENABLED world.Facts = 2
+	isEnabledLoad := func(v ssa.Value) bool {
+		u, ok := v.(*ssa.UnOp)
+		if !ok {
+			return false
+		}
+		fa, ok := u.X.(*ssa.FieldAddr)
+		return ok && world.FieldName(fa) == "Enabled"
+	}
+	mustE := world.Must(fn, func(b *ssa.BasicBlock, si int) world.Facts {
+		iff := world.IfOf(b)
+		if iff == nil {
+			return 0
+		}
+		c := iff.Cond
+		neg := false
+		if u, ok := c.(*ssa.UnOp); ok && u.Op.String() == "!" {
+			c, neg = u.X, true
+		}
+		if isEnabledLoad(c) && (si == 0) != neg {
+			return ENABLED
+		}
+		return 0
+	}, nil, nil)
+	k := 0
+	for _, b := range fn.Blocks {
+		for _, in := range b.Instrs {
+			if !isConnTableUpdate(in) {
+				continue
+			}
+			k++
+			key := fmt.Sprintf("%s|update-only-if-enabled#%d", fname, k)
+			if world.FactsAt(mustE, in, nil, nil)&ENABLED != 0 {
+				r.OK(key, w.InstrPos(in), "the connection is authenticated only on the edge where user.Enabled is true")
+			} else {
+				r.Fail(key, w.InstrPos(in), "a connection can be marked authenticated on a path that has not established that the user is enabled: a disabled user (for example one that is also password-less) can still authenticate and act")
+			}
+		}
+	}
 }
 
 func ruleU2(w *world.World, r *report.RuleResult) {
